@@ -137,7 +137,19 @@ class _Env(object):
       return None
     self.body = body
     ph = htf.PhaseOptions(timeout_s=30)(body)
-    ph = htf.measures(htf.Measurement('m1').in_range(0, 50),
+    class Remembering(object):
+      """a validator with state of its own (validators.py allows it): each run validates with a copy"""
+
+      def __init__(self_):
+        self_.seen = []
+
+      def __call__(self_, value):
+        self_.seen.append(value)
+        return len(self_.seen) == 1        # a copy made for this phase has seen nothing before
+
+      def __str__(self_):
+        return 'Remembering'
+    ph = htf.measures(htf.Measurement('m1').in_range(0, 50).with_validator(Remembering()),
                       htf.Measurement('m2').validate_on({self.Diag.A: validators.in_range(0, 100)}))(ph)
     ph = htf.plug(pl=base_plugs.PlugPlaceholder(Base))(ph)
     ph = htf.diagnose(self.diagnoser)(ph)
@@ -237,7 +249,7 @@ def _run_d(case):
 
 
 def _canon_record(rec):
-  out = {'outcome': rec.outcome.name, 'phases': []}
+  out = {'outcome': rec.outcome.name if rec.outcome is not None else 'NOT-FINALIZED', 'phases': []}
   for p in rec.phases:
     out['phases'].append({
         'name': p.name, 'outcome': p.outcome.name if p.outcome else None,
